@@ -22,26 +22,31 @@ structure St where
   mask    : SSet := SSet.empty     -- `Signals.mask`
   blocked : SSet := SSet.empty     -- the thread's signal mask
   sfd     : SSet := SSet.empty     -- the signalfd's mask
-  pending : SSet := SSet.empty
+  pending : SSet := SSet.empty     -- pending for the process (`kill`)
+  pendingT : SSet := SSet.empty    -- pending for the thread (`raise`, `pthread_kill`): a queue of its own
   handled : Nat → Nat := fun _ => 0     -- process-handler invocations per signal
   reported : List Nat := []             -- events delivered by the source, in order
 
 inductive Op
   | new (s : List Nat) | add (s : List Nat) | remove (s : List Nat) | set (s : List Nat)
-  | dropSrc | raise (sig : Nat) | dispatch
+  | dropSrc | raise (sig : Nat) | raiseT (sig : Nat) | dispatch
   deriving Repr
 
 /-- unblock the signals of `u`: pending ones go to the process handler -/
 def unblock (st : St) (u : SSet) : St :=
   { st with
     blocked := st.blocked.diff u,
-    handled := fun s => if u s && st.blocked s && st.pending s then st.handled s + 1 else st.handled s,
-    pending := fun s => if u s && st.blocked s then false else st.pending s }
+    handled := fun s => if u s && st.blocked s then st.handled s + (if st.pending s then 1 else 0) + (if st.pendingT s then 1 else 0)
+                        else st.handled s,
+    pending := fun s => if u s && st.blocked s then false else st.pending s,
+    pendingT := fun s => if u s && st.blocked s then false else st.pendingT s }
 
 def block (st : St) (b : SSet) : St := { st with blocked := st.blocked.union b }
 
-/-- the signals a read of the signalfd returns: pending ∩ sfd, ascending, below `bound` -/
-def readable (st : St) (bound : Nat) : List Nat := (List.range bound).filter fun s => st.pending s && st.sfd s
+/-- the signals a read of the signalfd returns: the thread's own queue first, then the process's, each ascending,
+    below `bound` (a signal pending in both queues is returned twice: two instances) -/
+def readable (st : St) (bound : Nat) : List Nat :=
+  ((List.range bound).filter fun s => st.pendingT s && st.sfd s) ++ ((List.range bound).filter fun s => st.pending s && st.sfd s)
 
 def step (bound : Nat) (st : St) : Op → St
   | .new l =>
@@ -67,10 +72,14 @@ def step (bound : Nat) (st : St) : Op → St
   | .raise s =>
     if st.blocked s then { st with pending := fun x => if x == s then true else st.pending x }
     else { st with handled := fun x => if x == s then st.handled x + 1 else st.handled x }
+  | .raiseT s =>
+    if st.blocked s then { st with pendingT := fun x => if x == s then true else st.pendingT x }
+    else { st with handled := fun x => if x == s then st.handled x + 1 else st.handled x }
   | .dispatch =>
     if !st.alive then st else
     let r := readable st bound
-    { st with reported := st.reported ++ r, pending := fun s => if r.contains s then false else st.pending s }
+    { st with reported := st.reported ++ r, pending := fun s => if r.contains s then false else st.pending s,
+              pendingT := fun s => if r.contains s then false else st.pendingT s }
 
 def run (bound : Nat) (st : St) (ops : List Op) : St := ops.foldl (step bound) st
 
